@@ -445,6 +445,99 @@ def c03(run):
     partition_pipeline(run, "C03", classify)
 
 
+# ------------------------------------------------------------------------------ C20
+def registry_cfg(script, variant, invs):
+    return 'CONSTANTS ScriptName = "%s" Variant = "%s" MaxTicks = 3 MaxPollers = 3\nINIT Init\nNEXT Next\nINVARIANTS %s\nCHECK_DEADLOCK FALSE\n' % (script, variant, invs)
+
+
+def c20(run):
+    th = run.tier == "thorough"
+    allinv = "AtMostOnePoller PollOnlyWhileStarted StopTerminates NoPollerAfterStop"
+    for script in ("seq", "two", "mix"):
+        run.mc("Registry", "r.cfg", cfg_text=registry_cfg(script, "repaired", allinv), label="mc:Registry/" + script)
+    run.neg("Registry", "n1.cfg", cfg_text=registry_cfg("seq", "delivered", "AtMostOnePoller"), label="neg:started-never-set")
+    run.neg("Registry", "n2.cfg", cfg_text=registry_cfg("seq", "delivered", "NoPollerAfterStop"), label="neg:started-never-set/stop-is-noop")
+    run.neg("Registry", "n3.cfg", cfg_text=registry_cfg("seq", "flagonly", "StopTerminates"), label="neg:flag-only-repair-deadlocks")
+    n = 1500 if th else 200
+    out, _ = run.go("^TestRegistryRandom$", env={"VERIF_N": n}, timeout=600)
+    tp = os.path.join(out, "registry_trace.ndjson")
+    rows = vlib.read_ndjson(tp)
+    polls = sum(1 for x in rows if x["ev"] == "Op" and any(v > 0 for v in x["obs"]["polls"].values()))
+    fw = sum(1 for x in rows if x["ev"] == "Op" and x["op"]["op"] == "sample")
+    if polls == 0 or fw == 0:
+        raise Machinery("registry sequences are vacuous (polls %d, samples %d)" % (polls, fw))
+    run.extra["registry_sequences"] = {"sequences": n, "ops": len(rows) - 2 * n, "ops_with_polls_seen": polls, "samples_forwarded": fw}
+    rejects, total = validate_sharded(run, "RegistryTrace", "Registry_trace.cfg", tp)
+    run.traces += n
+    run.events += total
+    run.sample({"registry_sequence_excerpt": rows[:5]})
+    seen = set()
+    for rj in rejects:
+        if rj["trace"] in seen:
+            continue
+        seen.add(rj["trace"])
+        tr = [x for x in rows if x["trace"] == rj["trace"]]
+        run.report("%s registry: sequence %d rejected (%s) at %s: expected %s, observed %s" % (
+            tr[0]["cfg"]["kind"], rj["trace"], rj["why"], json.dumps(rj["op"]), json.dumps(rj["expected"]), json.dumps(rj["logged"])),
+            {"sequence": tr, "reject": rj, "rerun": "VERIF_SEED=%d bin/check C20" % run.seed}, {"kind": tr[0]["cfg"]["kind"], "op": rj["op"].get("op")})
+    # emission: in-flight sample at the admission decision and the limit gauge, through the Limiter contract
+    def lim_rj(r, tr):
+        e, g = r.get("expected") or {}, r.get("logged") or {}
+        er, gr = e.get("res") or {}, g.get("res") or {}
+        ep, gp = e.get("post") or {}, g.get("post") or {}
+        if isinstance(er, dict) and isinstance(gr, dict) and er.get("inflight") != gr.get("inflight"):
+            return {"kind": "default", "what": "inflight sample"}
+        if isinstance(ep, dict) and isinstance(gp, dict) and ep.get("glimit") != gp.get("glimit"):
+            return {"kind": "default", "what": "limit gauge"}
+        return None
+    limiter_pipeline(run, "C20", lambda m: {"kind": "default", "what": "emission"} if _res_field_differs(m, "inflight") else None, lim_rj, graphs=th)
+    run.assumptions += ["Start/Stop/Register calls are sequential (the poller is the only concurrent party); the TLC model additionally covers two concurrent callers",
+                        "Stop is never issued at exactly a ticker instant by the drivers' contract (interval (t, t+d] inclusive is polled before the next call)",
+                        "the per-sample emission of the limit algorithms (RTT / in-flight / drop counter) is checked by the limit-algorithm traces (C04/C16 machinery), see DESIGN"]
+
+
+# ------------------------------------------------------------------------------ C14
+def c14(run):
+    th = run.tier == "thorough"
+    r = run.tlc("GrpcMC", "Grpc_mc.cfg", workers=1, label="mc+gen:Grpc")
+    if r.error or not r.ok:
+        raise Machinery("TLC GrpcMC: %s %s\n%s" % (r.error, r.violation, r.raw[-3000:]))
+    run.states += r.distinct
+    run.transitions += r.generated
+    cases = r.json_prints("CASE")
+    if len(cases) != 192:
+        raise Machinery("GrpcMC enumerated %d cases, expected the full product of 192" % len(cases))
+    indir = os.path.join(run.scratch, "in")
+    os.makedirs(indir, exist_ok=True)
+    vlib.write_ndjson(os.path.join(indir, "grpc_cases.ndjson"), cases)
+    out, _ = run.go("^TestGrpcCases$", env={"VERIF_IN": indir})
+    rep = json.load(open(os.path.join(out, "grpc_cases.json")))
+    run.extra["cases_replayed"] = rep["cases"]
+    run.exhaustive = True
+    run.traces += rep["cases"]
+    run.sample({"case": cases[0]})
+    for m in rep["mismatches"] or []:
+        run.report("gRPC %s (grant=%s err=%s classifier=%s, custom=%s): observed %s, the contract fixes %s" % (
+            m["op"]["kind"], m["op"]["grant"], m["op"]["err"], m["op"]["cls"], m["cfg"], json.dumps(m["got"]), json.dumps(m["expected"])),
+            {"case": m, "rerun": "bin/check C14"}, {"kind": m["op"]["kind"], "grant": m["op"]["grant"]})
+    n = 20000 if th else 3000
+    out, _ = run.go("^TestGrpcRandom$", env={"VERIF_N": n})
+    tp = os.path.join(out, "grpc_trace.ndjson")
+    rejects, total = validate_sharded(run, "GrpcTrace", "Grpc_trace.cfg", tp)
+    run.events += total
+    run.traces += total
+    seen = set()
+    for rj in rejects:
+        key = (rj["op"]["kind"], rj["op"]["grant"], rj["op"]["err"], json.dumps(rj["cfg"], sort_keys=True))
+        if key in seen:
+            continue
+        seen.add(key)
+        run.report("gRPC %s: recorded operation rejected by the contract: expected %s, logged %s" % (rj["op"]["kind"], json.dumps(rj["expected"]), json.dumps(rj["logged"])),
+                   {"reject": rj, "rerun": "VERIF_SEED=%d bin/check C14" % run.seed}, {"kind": rj["op"]["kind"], "grant": rj["op"]["grant"]})
+    run.assumptions += ["recording limiter / listener doubles and fake handler, invoker and ServerStream (no network); interceptors are stateless, so sequences are independent operations",
+                        "stream operations: RecvMsg consults the server-side stream classifier and SendMsg the client-side one, as the options are named"]
+
+
 # ------------------------------------------------------------------------------ C01
 def conc_cfg(direct, ll, sl):
     return ('CONSTANTS P = {"p1", "p2", "p3"} Limits = {0, 1, 2, 3} Limit0 = 1 Direct = %s LimiterLock = %s StrategyLock = %s Rounds = 2\n'
@@ -545,6 +638,8 @@ CHECKS = {
     "C05": c05,
     "C09": c09,
     "C10": c10,
+    "C14": c14,
+    "C20": c20,
     "C11": c11,
     "C12": c12,
     "C13": c13,
